@@ -77,7 +77,7 @@ Arith(l, r) == IF IsB(l, "Z") /\ IsB(r, "Z") THEN TB("Z") ELSE IF IsB(l, "B") /\
 ElemOf(t) == IF IsList(t) THEN t.l ELSE IF IsB(t, "T") THEN TB("C") ELSE ERR
 BinType(op, l, r) ==
     CASE op \in {"plus", "minus", "mal"} -> R(IF IsNum(l) /\ IsNum(r) THEN Arith(l, r) ELSE ERR, Need(IsNum(l) /\ IsNum(r), <<l, r>>, "type:operand"))
-      [] op = "durch" -> R(TB("K"), Need(IsNum(l) /\ IsNum(r), <<l, r>>, "type:operand"))
+      [] op \in {"durch", "pow"} -> R(TB("K"), Need(IsNum(l) /\ IsNum(r), <<l, r>>, "type:operand"))
       [] op \in {"mod", "band", "bor", "bxor"} -> R(IF IsB(l, "Z") \/ IsB(r, "Z") THEN TB("Z") ELSE TB("B"), Need(IsZB(l) /\ IsZB(r), <<l, r>>, "type:operand"))
       [] op \in {"shl", "shr"} -> R(IF IsZB(l) THEN l ELSE ERR, Need(IsZB(l) /\ IsZB(r), <<l, r>>, "type:operand"))
       [] op \in {"and", "or", "xor"} -> R(TB("W"), Need(IsB(l, "W") /\ IsB(r, "W"), <<l, r>>, "type:operand"))
